@@ -63,6 +63,13 @@ def gen_search(req):
             seen.add(m["src"])
             progs.append({"id": f"m{len(progs)}", "src": m["src"]})
             meta.append({"kind": m["kind"], "template": t["name"], "desc": m["desc"]})
+            # the same mutant with its expressions wrapped over several source lines (multi-line spans)
+            if r.random() < 0.3:
+                lay = mutate.relayout(m["src"], r)
+                if lay is not None and lay not in seen:
+                    seen.add(lay)
+                    progs.append({"id": f"m{len(progs)}", "src": lay})
+                    meta.append({"kind": m["kind"] + "+layout", "template": t["name"], "desc": m["desc"] + " [re-laid out]"})
     return {"progs": progs, "meta": meta, "n_corpus": n_corpus, "n_templates": n_templates, "n_grid": len(grid)}
 
 
